@@ -234,6 +234,29 @@ func oracle(c Case) error {
 				return fmt.Errorf("A != g^a mod p")
 			}
 		}
+		// what came before in this process must not matter: the same password again right away with one of the two
+		// salts changed (the server rotates a salt; two accounts share one) - the server that holds the verifier for
+		// the new parameters accepts the answer
+		for _, which := range []string{"salt2", "salt1"} {
+			c2 := c
+			if which == "salt2" {
+				c2.Salt2 = append(append([]byte{}, c.Salt2...), 0x5a)
+			} else {
+				c2.Salt1 = append(append([]byte{}, c.Salt1...), 0x5a)
+			}
+			c2.Corner, c2.Zeros = "", 0
+			srv2, a2, err := prepare(c2)
+			if err != nil {
+				return fmt.Errorf("INFRA: %v", err)
+			}
+			A3, M3, empty, err := answer(c2, c2.Password, padded(srv2.B), append([]byte{}, a2...))
+			if err != nil || empty {
+				return fmt.Errorf("same password, other %s: client refused valid parameters: empty=%v err=%v", which, empty, err)
+			}
+			if err := srv2.Check(A3, M3); err != nil {
+				return fmt.Errorf("right password, asked again with the same %s and another %s: the answer is rejected by the server holding the verifier for the new parameters: %v", map[string]string{"salt2": "salt1", "salt1": "salt2"}[which], which, err)
+			}
+		}
 		// the answer computed for any other password must be rejected
 		A2, M2, empty, err := answer(c, c.Other, append([]byte{}, B...), append([]byte{}, a...))
 		if err != nil || empty {
